@@ -1,8 +1,9 @@
+(* Integrate.v — the integrate operator on semantic circuits and its correctness (C03). *)
 From Coq Require Import List Lia Ring Ring_theory Bool Arith.
 Import ListNotations.
-From CK Require Import Base.
+From CK Require Import Base Circ.
 
-Section Circ.
+Section Integrate.
 Variable R : Type.
 Variables (rO rI : R) (radd rmul : R -> R -> R).
 Hypothesis Rth : semi_ring_theory rO rI radd rmul (@eq R).
@@ -14,6 +15,7 @@ Notation asg := (asg D).
 Notation vec := (vec R).
 Notation dot := (dot R rO radd rmul).
 Notation had := (had R rmul).
+Notation kron := (kron R rmul).
 Variable Int : nat -> (D -> R) -> R.
 Hypothesis Int_ext : forall v f g, (forall d, f d = g d) -> Int v f = Int v g.
 Hypothesis Int_add : forall v f g, Int v (fun d => f d + g d) = Int v f + Int v g.
@@ -22,112 +24,36 @@ Notation IntL := (IntL R D Int).
 Notation IntV := (IntV R rO D Int).
 Notation dep_on := (dep_on R D).
 Notation upd := (upd D).
-
-(* ---------- circuits ---------- *)
-Record inp := { iscope : list nat; iunits : nat; ifun : asg -> vec }.
-Inductive node := NIn (i : inp) | NSum (W : list vec) (ins : list nat) | NHad (ins : list nat).
-Definition circuit := list node.
-Definition get (vals : list vec) (i : nat) : vec := nth i vals [].
-Definition hadn (xs : list vec) : vec := match xs with [] => [] | v :: vs => fold_left had vs v end.
-Definition eval_node (n : node) (y : asg) (vals : list vec) : vec :=
-  match n with
-  | NIn i => ifun i y
-  | NSum W ins => map (fun w => dot w (concat (map (get vals) ins))) W
-  | NHad ins => hadn (map (get vals) ins)
-  end.
-Fixpoint eval_from (ns : circuit) (y : asg) (acc : list vec) : list vec :=
-  match ns with [] => acc | n :: ns' => eval_from ns' y (acc ++ [eval_node n y acc]) end.
-Definition eval (c : circuit) (y : asg) : list vec := eval_from c y [].
-
-Definition node_scope (n : node) (sc : list (list nat)) : list nat :=
-  match n with
-  | NIn i => iscope i
-  | NSum _ ins | NHad ins => concat (map (fun j => nth j sc []) ins)
-  end.
-Fixpoint scopes_from (ns : circuit) (acc : list (list nat)) :=
-  match ns with [] => acc | n :: ns' => scopes_from ns' (acc ++ [node_scope n acc]) end.
-Definition scopes c := scopes_from c [].
-Definition node_units (n : node) (us : list nat) : nat :=
-  match n with
-  | NIn i => iunits i
-  | NSum W _ => length W
-  | NHad ins => match ins with [] => 0%nat | j :: _ => nth j us 0%nat end
-  end.
-Fixpoint units_from (ns : circuit) (acc : list nat) :=
-  match ns with [] => acc | n :: ns' => units_from ns' (acc ++ [node_units n acc]) end.
-Definition units c := units_from c [].
-
-(* snoc characterisations *)
-Lemma eval_from_app a b y acc : eval_from (a ++ b) y acc = eval_from b y (eval_from a y acc).
-Proof. revert acc; induction a as [|n a IH]; intros acc; simpl; [reflexivity | apply IH]. Qed.
-Lemma eval_snoc pre n y : eval (pre ++ [n]) y = eval pre y ++ [eval_node n y (eval pre y)].
-Proof. unfold eval. rewrite eval_from_app. reflexivity. Qed.
-Lemma scopes_from_app a b acc : scopes_from (a ++ b) acc = scopes_from b (scopes_from a acc).
-Proof. revert acc; induction a as [|n a IH]; intros acc; simpl; [reflexivity | apply IH]. Qed.
-Lemma scopes_snoc pre n : scopes (pre ++ [n]) = scopes pre ++ [node_scope n (scopes pre)].
-Proof. unfold scopes. rewrite scopes_from_app. reflexivity. Qed.
-Lemma units_from_app a b acc : units_from (a ++ b) acc = units_from b (units_from a acc).
-Proof. revert acc; induction a as [|n a IH]; intros acc; simpl; [reflexivity | apply IH]. Qed.
-Lemma units_snoc pre n : units (pre ++ [n]) = units pre ++ [node_units n (units pre)].
-Proof. unfold units. rewrite units_from_app. reflexivity. Qed.
-Lemma length_eval_from ns y acc : length (eval_from ns y acc) = (length acc + length ns)%nat.
-Proof. revert acc; induction ns as [|n ns IH]; intros acc; simpl; [lia|]. rewrite IH, app_length. simpl. lia. Qed.
-Lemma length_eval c y : length (eval c y) = length c.
-Proof. unfold eval. rewrite length_eval_from. reflexivity. Qed.
-Lemma length_scopes c : length (scopes c) = length c.
-Proof. assert (H : forall acc, length (scopes_from c acc) = (length acc + length c)%nat).
-  { induction c as [|n c IH]; intros acc; simpl; [lia|]. rewrite IH, app_length. simpl. lia. }
-  unfold scopes. rewrite H. reflexivity. Qed.
-Lemma length_units c : length (units c) = length c.
-Proof. assert (forall acc, length (units_from c acc) = (length acc + length c)%nat).
-  { induction c as [|n c IH]; intros acc; simpl; [lia|]. rewrite IH, app_length. simpl. lia. }
-  unfold units. rewrite H. reflexivity. Qed.
-
+Notation node := (node R D).
+Notation circuit := (circuit R D).
+Notation eval := (eval R rO radd rmul D).
+Notation eval_node := (eval_node R rO radd rmul D).
+Notation scopes := (scopes R D).
+Notation units := (units R D).
+Notation ok := (ok R rO D).
+Notation inp := (inp R D).
+Notation NIn := (NIn R D).
+Notation NSum := (NSum R D).
+Notation NHad := (NHad R D).
+Notation NKron := (NKron R D).
+Notation iscope := (iscope R D).
+Notation iunits := (iunits R D).
+Notation ifun := (ifun R D).
+Notation get := (get R).
+Notation hadn := (hadn R rmul).
+Notation kronn := (kronn R rmul).
+Notation prodl := (prodl R rI rmul).
+Notation prodf := (prodf R rI rmul D).
 (* ---------- the operator ---------- *)
 Definition memb v (s : list nat) := mem v s.
 Definition zs_of (Z S : list nat) := filter (fun v => mem v S) Z.
 Definition integ_inp (Z : list nat) (i : inp) : inp :=
-  {| iscope := filter (fun v => negb (mem v Z)) (iscope i); iunits := iunits i;
-     ifun := IntV (zs_of Z (iscope i)) (ifun i) (iunits i) |}.
-Definition tr (Z : list nat) (n : node) : node := match n with NIn i => NIn (integ_inp Z i) | _ => n end.
+  Build_inp R D (filter (fun v => negb (mem v Z)) (iscope i)) (iunits i)
+                (IntV (zs_of Z (iscope i)) (ifun i) (iunits i)).
+Definition tr (Z : list nat) (n : node) : node := match n with Circ.NIn _ _ i => NIn (integ_inp Z i) | _ => n end.
 Definition integrate (Z : list nat) (c : circuit) : circuit := map (tr Z) c.
 Lemma integrate_snoc Z pre n : integrate Z (pre ++ [n]) = integrate Z pre ++ [tr Z n].
 Proof. unfold integrate. rewrite map_app. reflexivity. Qed.
-
-(* ---------- well-formedness, smoothness, decomposability (Prop form for the prototype) ---------- *)
-Definition disjoint (a b : list nat) := forall u, In u a -> ~ In u b.
-Fixpoint pairwise_disjoint (ss : list (list nat)) : Prop :=
-  match ss with [] => True | s :: r => (forall t, In t r -> disjoint s t) /\ pairwise_disjoint r end.
-Definition sameset (a b : list nat) := forall u, In u a <-> In u b.
-Definition ok_node (pos : nat) (us : list nat) (sc : list (list nat)) (n : node) : Prop :=
-  match n with
-  | NIn i => (forall y, length (ifun i y) = iunits i) /\ (forall k, dep_on (iscope i) (fun y => nth k (ifun i y) 0))
-  | NSum W ins => ins <> [] /\ (forall j, In j ins -> j < pos)
-                  /\ (forall j, In j ins -> sameset (nth j sc []) (concat (map (fun j => nth j sc []) ins)))  (* smooth *)
-  | NHad ins => ins <> [] /\ (forall j, In j ins -> j < pos)
-                /\ (forall j, In j ins -> nth j us 0%nat = match ins with [] => 0%nat | j0 :: _ => nth j0 us 0%nat end)
-                /\ pairwise_disjoint (map (fun j => nth j sc []) ins)                               (* decomposable *)
-  end.
-Inductive ok : circuit -> Prop :=
-| ok_nil : ok []
-| ok_snoc pre n : ok pre -> ok_node (length pre) (units pre) (scopes pre) n -> ok (pre ++ [n]).
-
-
-(* ---------- generic list helpers ---------- *)
-Lemma nth_snoc_lt {A} (l : list A) x d i : i < length l -> nth i (l ++ [x]) d = nth i l d.
-Proof. intros; apply app_nth1; assumption. Qed.
-Lemma nth_snoc_eq {A} (l : list A) x d : nth (length l) (l ++ [x]) d = x.
-Proof. rewrite app_nth2 by lia. rewrite Nat.sub_diag. reflexivity. Qed.
-Lemma list_eq_nth0 (l l' : vec) : length l = length l' -> (forall k, nth k l 0 = nth k l' 0) -> l = l'.
-Proof. revert l'; induction l as [|a l IH]; intros [|b l'] HL H; simpl in *; try discriminate; [reflexivity|].
-  f_equal; [exact (H 0%nat) | apply IH; [lia | intros k; exact (H (S k))]]. Qed.
-Lemma filter_filter {A} (f g : A -> bool) l : filter f (filter g l) = filter (fun x => g x && f x) l.
-Proof. induction l as [|a l IH]; simpl; [reflexivity|]. destruct (g a); simpl; [destruct (f a); rewrite IH; reflexivity | exact IH]. Qed.
-Lemma seq_add_map a n : seq a n = map (fun k => (a + k)%nat) (seq 0 n).
-Proof. revert a; induction n as [|n IH]; intros a; simpl; [reflexivity|]. f_equal; [lia|].
-  rewrite (IH (S a)), (IH 1%nat), map_map. apply map_ext. intros; lia. Qed.
-Lemma nth_map_dot (W : list vec) x k : nth k (map (fun w => dot w x) W) 0 = dot (nth k W []) x.
-Proof. change 0 with ((fun w => dot w x) []). apply map_nth. Qed.
 
 (* ---------- IntV algebra ---------- *)
 Lemma IntV_app zs F G L1 L2 y : (forall y, length (F y) = L1) ->
@@ -172,29 +98,6 @@ Proof. intros Hd. unfold zs_of. rewrite filter_filter. apply filter_ext. intros 
   destruct (mem v S1) eqn:E1, (mem v S2) eqn:E2; simpl; auto.
   apply mem_In in E1, E2. exfalso. exact (Hd v E1 E2). Qed.
 
-(* ---------- n-ary products ---------- *)
-Definition prodl (l : list R) : R := fold_right rmul 1 l.
-Lemma nth_fold_had k vs v : nth k (fold_left had vs v) 0 = nth k v 0 * prodl (map (fun x => nth k x 0) vs).
-Proof. revert v; induction vs as [|a vs IH]; intros v; simpl; [ring|]. rewrite IH, (nth_had R rO rI radd rmul Rth). ring. Qed.
-Lemma nth_hadn k xs : xs <> [] -> nth k (hadn xs) 0 = prodl (map (fun x => nth k x 0) xs).
-Proof. destruct xs as [|v vs]; [congruence|]. intros _. simpl. apply nth_fold_had. Qed.
-Lemma length_fold_had vs v u : length v = u -> (forall x, In x vs -> length x = u) -> length (fold_left had vs v) = u.
-Proof. revert v; induction vs as [|a vs IH]; intros v Hv H; simpl; [exact Hv|].
-  apply IH; [rewrite (length_had R rmul), Hv, (H a) by (simpl; auto); apply Nat.min_id | intros; apply H; simpl; auto]. Qed.
-Lemma length_hadn xs u : xs <> [] -> (forall x, In x xs -> length x = u) -> length (hadn xs) = u.
-Proof. destruct xs as [|v vs]; [congruence|]. intros _ H. simpl. apply length_fold_had; [apply H; simpl; auto | intros; apply H; simpl; auto]. Qed.
-
-Definition prodf (fs : list (list nat * (asg -> R))) (y : asg) : R := prodl (map (fun p => snd p y) fs).
-Lemma dep_on_sub S S' f : (forall u, In u S -> In u S') -> dep_on S f -> dep_on S' f.
-Proof. intros Hs Hf y y' Ha. apply Hf. intros u Hu. apply Ha, Hs, Hu. Qed.
-Lemma prodf_dep fs : (forall p, In p fs -> dep_on (fst p) (snd p)) -> dep_on (concat (map fst fs)) (prodf fs).
-Proof. induction fs as [|[S f] fs IH]; intros H y y' Ha; unfold prodf; simpl; [reflexivity|].
-  f_equal.
-  - apply (H (S, f)); [simpl; auto|]. intros u Hu. apply Ha. simpl. apply in_or_app; auto.
-  - apply IH; [intros; apply H; simpl; auto|]. intros u Hu. apply Ha. simpl. apply in_or_app; auto. Qed.
-Lemma disjoint_concat S ss : (forall t, In t ss -> disjoint S t) -> disjoint S (concat ss).
-Proof. intros H u Hu Hc. apply in_concat in Hc. destruct Hc as [t [Ht Hut]]. exact (H t Ht u Hu Hut). Qed.
-
 Lemma IntL_prodn fs : (forall p, In p fs -> dep_on (fst p) (snd p)) -> pairwise_disjoint (map fst fs) ->
   forall Z y, IntL (zs_of Z (concat (map fst fs))) (prodf fs) y
             = prodl (map (fun p => IntL (zs_of Z (fst p)) (snd p) y) fs).
@@ -219,18 +122,6 @@ Proof. intros H. unfold Base.IntV. apply map_ext. intros k. apply (IntL_ext R D 
 Lemma dep_on_ext S f g : (forall y, f y = g y) -> dep_on S f -> dep_on S g.
 Proof. intros H Hf y y' Ha. rewrite <- !H. apply Hf, Ha. Qed.
 
-Lemma ev_lt pre n y i : i < length pre -> nth i (eval (pre ++ [n]) y) [] = nth i (eval pre y) [].
-Proof. intros H. rewrite eval_snoc. apply nth_snoc_lt. rewrite length_eval. exact H. Qed.
-Lemma ev_eq pre n y : nth (length pre) (eval (pre ++ [n]) y) [] = eval_node n y (eval pre y).
-Proof. rewrite eval_snoc. rewrite <- (length_eval pre y) at 1. apply nth_snoc_eq. Qed.
-Lemma sc_lt pre n i : i < length pre -> nth i (scopes (pre ++ [n])) [] = nth i (scopes pre) [].
-Proof. intros H. rewrite scopes_snoc. apply nth_snoc_lt. rewrite length_scopes. exact H. Qed.
-Lemma sc_eq pre n : nth (length pre) (scopes (pre ++ [n])) [] = node_scope n (scopes pre).
-Proof. rewrite scopes_snoc. rewrite <- (length_scopes pre) at 1. apply nth_snoc_eq. Qed.
-Lemma un_lt pre n i : i < length pre -> nth i (units (pre ++ [n])) 0%nat = nth i (units pre) 0%nat.
-Proof. intros H. rewrite units_snoc. apply nth_snoc_lt. rewrite length_units. exact H. Qed.
-Lemma un_eq pre n : nth (length pre) (units (pre ++ [n])) 0%nat = node_units n (units pre).
-Proof. rewrite units_snoc. rewrite <- (length_units pre) at 1. apply nth_snoc_eq. Qed.
 Lemma length_integrate Z c : length (integrate Z c) = length c.
 Proof. apply map_length. Qed.
 Lemma evI_lt Z pre n y i : i < length pre ->
@@ -265,7 +156,7 @@ Proof.
       * intros y. rewrite evI_lt, sc_lt, un_lt by exact Hlt. rewrite IC.
         apply IntV_ext. intros y'. rewrite ev_lt by exact Hlt. reflexivity.
     + (* the new node *)
-      destruct n as [inp0 | W ins | ins]; simpl in Hn.
+      destruct n as [inp0 | W ins | ins | ins]; simpl in Hn.
       * (* input *)
         destruct Hn as [HL HD]. split; [|split].
         -- intros y. rewrite ev_eq, un_eq. simpl. apply HL.
@@ -284,22 +175,22 @@ Proof.
         -- intros k. rewrite sc_eq. simpl. fold sc. fold S.
            apply (dep_on_ext _ (fun y => dot (nth k W []) (concat (map (get (eval pre y)) ins)))).
            { intros y. rewrite ev_eq. simpl. rewrite nth_map_dot. reflexivity. }
-           intros y y' Ha. f_equal. f_equal. apply map_ext_in. intros j Hj. unfold get.
-           apply list_eq_nth0; [rewrite !IAj by exact Hj; reflexivity|].
+           intros y y' Ha. f_equal. f_equal. apply map_ext_in. intros j Hj. unfold Circ.get.
+           apply (list_eq_nth0 R rO); [rewrite !IAj by exact Hj; reflexivity|].
            intros k'. destruct (IH j (Hpos j Hj)) as [_ [IB _]]. apply IB.
            intros u Hu. apply Ha. unfold S. apply (in_scope_concat sc ins j u Hj Hu).
         -- intros y. rewrite evI_eq, sc_eq, un_eq. simpl. fold sc. fold S.
-           apply list_eq_nth0.
+           apply (list_eq_nth0 R rO).
            { rewrite map_length, (length_IntV R rO D Int). reflexivity. }
            intros k. rewrite nth_map_dot.
            rewrite (nth_IntV_all R rO rI radd rmul Rth D Int Int_ext Int_scal) by (intros; rewrite ev_eq; simpl; apply map_length).
            rewrite (IntL_ext R D Int Int_ext _ _ (fun y' => dot (nth k W []) (concat (map (get (eval pre y')) ins))))
              by (intros y'; rewrite ev_eq; simpl; apply nth_map_dot).
            rewrite (IntL_dot R rO rI radd rmul Rth D Int Int_ext Int_add Int_scal _ _ _ (sumu (fun j => nth j us 0%nat) ins))
-             by (intros y'; apply length_concat_sumu; intros j Hj; unfold get; apply IAj; exact Hj).
+             by (intros y'; apply length_concat_sumu; intros j Hj; unfold Circ.get; apply IAj; exact Hj).
            f_equal.
-           rewrite (IntV_concat _ (fun y' j => get (eval pre y') j)) by (intros j y' Hj; unfold get; apply IAj; exact Hj).
-           f_equal. apply map_ext_in. intros j Hj. unfold get.
+           rewrite (IntV_concat _ (fun y' j => get (eval pre y') j)) by (intros j y' Hj; unfold Circ.get; apply IAj; exact Hj).
+           f_equal. apply map_ext_in. intros j Hj. unfold Circ.get.
            destruct (IH j (Hpos j Hj)) as [_ [_ IC]]. rewrite IC. fold sc. fold us.
            rewrite (zs_of_sameset Z _ _ (Hsm j Hj)). reflexivity.
       * (* hadamard *)
@@ -311,11 +202,11 @@ Proof.
           by (intros j y Hj; rewrite <- (Hun j Hj); apply (IH j (Hpos j Hj))).
         assert (Hmapne : forall vals : list vec, map (get vals) ins <> []) by (intros vals E; apply map_eq_nil in E; contradiction).
         assert (HA : forall y, length (hadn (map (get (eval pre y)) ins)) = u0).
-        { intros y. apply length_hadn; [apply Hmapne|]. intros x Hx. apply in_map_iff in Hx. destruct Hx as [j [<- Hj]]. unfold get. apply IAj, Hj. }
+        { intros y. apply length_hadn; [apply Hmapne|]. intros x Hx. apply in_map_iff in Hx. destruct Hx as [j [<- Hj]]. unfold Circ.get. apply IAj, Hj. }
         pose (fs k := map (fun j => (nth j sc [], fun y : asg => nth k (nth j (eval pre y) []) 0)) ins).
         assert (Hfs1 : forall k, concat (map fst (fs k)) = S) by (intros k; unfold fs, S; rewrite map_map; reflexivity).
         assert (Hfsv : forall k y, nth k (hadn (map (get (eval pre y)) ins)) 0 = prodf (fs k) y).
-        { intros k y. rewrite nth_hadn by apply Hmapne. unfold prodf, fs. rewrite !map_map. reflexivity. }
+        { intros k y. rewrite (nth_hadn R rO rI radd rmul Rth) by apply Hmapne. unfold Circ.prodf, fs. rewrite !map_map. reflexivity. }
         assert (Hfsd : forall k p, In p (fs k) -> dep_on (fst p) (snd p)).
         { intros k p Hp. unfold fs in Hp. apply in_map_iff in Hp. destruct Hp as [j [<- Hj]]. simpl.
           destruct (IH j (Hpos j Hj)) as [_ [IB _]]. apply IB. }
@@ -327,17 +218,65 @@ Proof.
            assert (ICj : forall j, In j ins -> nth j (eval (integrate Z pre) y) [] =
                      IntV (zs_of Z (nth j sc [])) (fun y' => nth j (eval pre y') []) u0 y).
            { intros j Hj. destruct (IH j (Hpos j Hj)) as [_ [_ IC]]. rewrite IC. fold sc. fold us. rewrite (Hun j Hj). reflexivity. }
-           apply list_eq_nth0.
+           apply (list_eq_nth0 R rO).
            { rewrite (length_IntV R rO D Int). apply length_hadn; [apply Hmapne|].
-             intros x Hx. apply in_map_iff in Hx. destruct Hx as [j [<- Hj]]. unfold get. rewrite (ICj j Hj). apply (length_IntV R rO D Int). }
-           intros k. rewrite nth_hadn by apply Hmapne. rewrite map_map.
+             intros x Hx. apply in_map_iff in Hx. destruct Hx as [j [<- Hj]]. unfold Circ.get. rewrite (ICj j Hj). apply (length_IntV R rO D Int). }
+           intros k. rewrite (nth_hadn R rO rI radd rmul Rth) by apply Hmapne. rewrite map_map.
            rewrite (nth_IntV_all R rO rI radd rmul Rth D Int Int_ext Int_scal) by (intros y'; rewrite ev_eq; simpl; apply HA).
            rewrite (IntL_ext R D Int Int_ext _ _ (prodf (fs k))) by (intros y'; rewrite ev_eq; simpl; apply Hfsv).
            rewrite <- (Hfs1 k).
            rewrite IntL_prodn; [| apply Hfsd | unfold fs; rewrite map_map; exact Hdj].
-           unfold fs. rewrite map_map. f_equal. apply map_ext_in. intros j Hj. simpl. unfold get.
+           unfold fs. rewrite map_map. f_equal. apply map_ext_in. intros j Hj. simpl. unfold Circ.get.
            rewrite (ICj j Hj).
            apply (nth_IntV_all R rO rI radd rmul Rth D Int Int_ext Int_scal). intros y'. apply IAj, Hj.
+      * (* kronecker *)
+        destruct Hn as [Hne [Hpos Hdj]].
+        set (sc := scopes pre) in *. set (us := units pre) in *.
+        set (S := concat (map (fun j => nth j sc []) ins)) in *.
+        set (U := fold_right Nat.mul 1%nat (map (fun j => nth j us 0%nat) ins)).
+        assert (IAj : forall j y, In j ins -> length (nth j (eval pre y) []) = nth j us 0%nat)
+          by (intros j y Hj; apply (IH j (Hpos j Hj))).
+        assert (HA : forall y, length (kronn (map (get (eval pre y)) ins)) = U).
+        { intros y. apply (length_kronn_map R rmul); [exact Hne|]. intros j Hj. unfold Circ.get. apply IAj, Hj. }
+        (* one index per factor, depending only on the unit counts *)
+        pose (ds k := kidx (map (fun j => nth j us 0%nat) ins) k).
+        pose (fs k := map (fun p : nat * nat => (nth (fst p) sc [], fun y : asg => nth (snd p) (nth (fst p) (eval pre y) []) 0))
+                          (combine ins (ds k))).
+        assert (Hfs0 : forall k, map fst (fs k) = map (fun j => nth j sc []) ins).
+        { intros k. unfold fs. rewrite map_map. simpl.
+          rewrite <- (map_map fst (fun j => nth j sc [])). rewrite map_fst_combine; [reflexivity|].
+          unfold ds. rewrite length_kidx, map_length. reflexivity. }
+        assert (Hfs1 : forall k, concat (map fst (fs k)) = S) by (intros k; rewrite Hfs0; reflexivity).
+        assert (Hfsv : forall k y, nth k (kronn (map (get (eval pre y)) ins)) 0 = prodf (fs k) y).
+        { intros k y.
+          rewrite (nth_kronn_map R rO rI radd rmul Rth (get (eval pre y)) (fun j => nth j us 0%nat));
+            [| exact Hne | intros j Hj; unfold Circ.get; apply IAj, Hj].
+          unfold Circ.prodf, fs. rewrite !map_map. reflexivity. }
+        assert (Hfsd : forall k p, In p (fs k) -> dep_on (fst p) (snd p)).
+        { intros k p Hp. unfold fs in Hp. apply in_map_iff in Hp. destruct Hp as [[j d] [<- Hjd]]. simpl.
+          apply in_combine_l in Hjd.
+          destruct (IH j (Hpos j Hjd)) as [_ [IB _]]. apply IB. }
+        split; [|split].
+        -- intros y. rewrite ev_eq, un_eq. simpl. fold us. apply HA.
+        -- intros k. rewrite sc_eq. simpl. fold sc. fold S. rewrite <- (Hfs1 k).
+           apply (dep_on_ext _ (prodf (fs k))); [intros y; rewrite ev_eq; simpl; symmetry; apply Hfsv | apply prodf_dep, Hfsd].
+        -- intros y. rewrite evI_eq, sc_eq, un_eq. simpl. fold sc. fold S. fold us. fold U.
+           assert (ICj : forall j, In j ins -> nth j (eval (integrate Z pre) y) [] =
+                     IntV (zs_of Z (nth j sc [])) (fun y' => nth j (eval pre y') []) (nth j us 0%nat) y).
+           { intros j Hj. destruct (IH j (Hpos j Hj)) as [_ [_ IC]]. apply IC. }
+           assert (ILj : forall j, In j ins -> length (get (eval (integrate Z pre) y) j) = nth j us 0%nat).
+           { intros j Hj. unfold Circ.get. rewrite (ICj j Hj). apply (length_IntV R rO D Int). }
+           apply (list_eq_nth0 R rO).
+           { rewrite (length_IntV R rO D Int). apply (length_kronn_map R rmul); [exact Hne | exact ILj]. }
+           intros k.
+           rewrite (nth_kronn_map R rO rI radd rmul Rth (get (eval (integrate Z pre) y)) (fun j => nth j us 0%nat) ins k Hne ILj).
+           rewrite (nth_IntV_all R rO rI radd rmul Rth D Int Int_ext Int_scal) by (intros y'; rewrite ev_eq; simpl; apply HA).
+           rewrite (IntL_ext R D Int Int_ext _ _ (prodf (fs k))) by (intros y'; rewrite ev_eq; simpl; apply Hfsv).
+           rewrite <- (Hfs1 k).
+           rewrite IntL_prodn; [| apply Hfsd | rewrite Hfs0; exact Hdj].
+           unfold fs, ds. rewrite map_map. f_equal. apply map_ext_in. intros [j d] Hjd. simpl.
+           apply in_combine_l in Hjd. unfold Circ.get. rewrite (ICj j Hjd).
+           apply (nth_IntV_all R rO rI radd rmul Rth D Int Int_ext Int_scal). intros y'. apply IAj, Hjd.
 Qed.
 
 (* the property, per output layer and unit *)
@@ -348,6 +287,6 @@ Proof.
   intros Hok o k y Ho. destruct (integrate_inv Z c Hok o Ho) as [IA [_ IC]]. rewrite IC.
   apply (nth_IntV_all R rO rI radd rmul Rth D Int Int_ext Int_scal). exact IA.
 Qed.
-End Circ.
+End Integrate.
 Check integrate_correct.
 Print Assumptions integrate_correct.
